@@ -642,6 +642,9 @@ def install(E):
             # bound check: the range may not be longer than the unrolling
             E.unwinds.append((simp(And(guard, zint(hi) > lo + E.unwind + 0)), 'range iterator longer than unwind')) if simp(And(guard, zint(hi) > lo + E.unwind)) is not False else None
             return out
+        if it.kind == 'list':
+            its, pos = it.extra
+            return list(its[pos:])
         inner = items(E, it.inner, guard, mem)
         if it.kind in ('copied', 'cloned'):
             return [(p, deref(E, v, mem, guard)) for p, v in inner]
@@ -854,6 +857,26 @@ def install(E):
         r = Or(And(Not(sa), Not(sb)), And(both, eqp))
         return B(simp(r) if m.group(2) == 'eq' else simp(Not(r)))
     reg(r'^<(?:std::option::)?Option<(.+)> as PartialEq>::(eq|ne)$', h_opt_eq)
+
+    def h_option_into_iter(E, m, func, argv, guard, mem, dty, caller):
+        """Option<T>::into_iter: an iterator of zero or one item"""
+        o = argv[0]
+        if not isinstance(o, En):
+            return NotImplemented
+        some = simp(is_some(o))
+        if some is False:
+            return It('list', extra=([], 0))
+        return It('list', extra=([(some, payload(E, o, 1, 0, None, mem))], 0))
+    reg(r'^<(?:std::option::)?Option<.*> as IntoIterator>::into_iter$', h_option_into_iter)
+
+    def h_collect_vec(E, m, func, argv, guard, mem, dty, caller):
+        """Iterator::collect::<Vec<T>>: the items with their presence conditions (not a prefix sequence in general)"""
+        it = argv[0]
+        if not isinstance(it, It):
+            return NotImplemented
+        its = items(E, it, guard, mem)
+        return Seq([deref(E, v, mem, guard) if isinstance(v, Ref) and it.kind in ('copied', 'cloned') else v for p, v in its], None, None, pres=[simp(p) for p, v in its])
+    reg(r' as Iterator>::collect::<(?:std::vec::|alloc::vec::)?Vec<', h_collect_vec)
 
     def h_iter_next(E, m, func, argv, guard, mem, dty, caller):
         r = argv[0]
